@@ -125,6 +125,15 @@ def gen_plan(rng: random.Random, tier: str) -> dict:
         elif x < cfg["p_garbage"] + 0.13:
             newr = rng.randrange(3, 5)
             steps.append({"at": t, "op": "register_region", "v": v, "r": newr})
+            if rng.random() < 0.5:
+                # announced the way EstablishAgentCommunication does: address and seed, no region handle yet; the
+                # viewer connects and the simulator's handshake arrives before anything fills the handle in
+                steps[-1]["no_handle"] = True
+                t = round(t + 0.01, 4)
+                steps.append({"at": t, "op": "ucc", "v": v, "r": newr})
+                t = round(t + 0.01, 4)
+                steps.append({"at": t, "op": "ssend", "v": v, "r": newr, "name": "RegionHandshake", "mseed": 0,
+                              "reliable": True, "zerocoded": True, "fate": {}})
             if newr not in regs:
                 regs.append(newr)
         elif x < cfg["p_garbage"] + 0.137:
